@@ -7,7 +7,7 @@ one input): il rises with vls and falls with Dp, He falls and FB rises with vls,
 with Cvs; (3) jumps: a 1e-7 relative change of any one input of Cvs_Erhg changes it by < 1e-3 relative -- at random
 points, ON every branch threshold (d/Dp = 0.015, sqrtcx breakpoints, sublayer cap) and ACROSS every crossing of two
 regime curves (FB=SB, FB=He, SB=He, He=Ho, located by bisection on the real functions), where a selection error would
-show."""
+show; plus a scan along vls, d and Cvs for steps that dwarf their neighbours (a threshold that is not where it should be)."""
 import math
 import random
 from scommon import Search, E_args, sample_E, threshold_points, seed
@@ -144,6 +144,53 @@ def crossings(a, sw):
                     S.count(None, f'crossing:{p}={q}')
 
 
+def scan_for_jumps(a, sw):
+    """a branch threshold need not be where the search expects it: evaluate Cvs_Erhg on a fine geometric grid along each
+    of vls, d, Dp and Cvs, look for a step that dwarfs its neighbours, narrow it by bisection on the step size and test
+    the 1e-7 pair there"""
+    ranges = {0: (0.1, 10.0), 2: (max(5e-5, 1e-4), 0.25 * a[1]), 7: (0.02, 0.45)}
+    for i, (lo, hi) in ranges.items():
+        if not lo < hi:
+            continue
+        npts = 240
+        xs = [lo * (hi / lo) ** (k / (npts - 1)) for k in range(npts)]
+        ys = []
+        for x in xs:
+            b = list(a)
+            b[i] = x
+            try:
+                ys.append(fw.Cvs_Erhg(*b))
+            except Exception:
+                ys.append(float('nan'))
+        steps = [abs(ys[k + 1] - ys[k]) / max(abs(ys[k]), abs(ys[k + 1]), 1e-300) for k in range(npts - 1)]
+        finite = sorted(s for s in steps if s == s)
+        if not finite:
+            continue
+        med = finite[len(finite) // 2]
+        for k in range(npts - 1):
+            s_ = steps[k]
+            if not s_ == s_ or s_ < 5e-3:
+                continue
+            near = [steps[j] for j in (k - 2, k - 1, k + 1, k + 2) if 0 <= j < npts - 1 and steps[j] == steps[j]]
+            if near and s_ < 8 * max(max(near), med):
+                continue
+            # narrow: keep the half that holds the larger change
+            x0, x1 = xs[k], xs[k + 1]
+            for _ in range(60):
+                if (x1 - x0) <= STEP / 2 * x0:
+                    break
+                xm = (x0 * x1) ** 0.5
+                b0, bm, b1 = list(a), list(a), list(a)
+                b0[i], bm[i], b1[i] = x0, xm, x1
+                y0, ym, y1 = fw.Cvs_Erhg(*b0), fw.Cvs_Erhg(*bm), fw.Cvs_Erhg(*b1)
+                if abs(ym - y0) >= abs(y1 - ym):
+                    x1 = xm
+                else:
+                    x0 = xm
+            jump_pair(a, i, x0, x1, sw, 'scan:' + NAMES[i])
+            S.count(None, 'scan-candidate')
+
+
 def main():
     n = S.budget
     for i in range(n):
@@ -162,6 +209,8 @@ def main():
                 S.count(a, 'point' if j == 0 else 'threshold-point')
             if i % 3 == 0:
                 crossings(E_args(b), sw)
+            if i % 8 == 0:
+                scan_for_jumps(E_args(b), sw)
             # the sqrtcx breakpoints: grains for which gibert = 1.8 resp. gibert = wilson, found along d
             if i % 5 == 0 and sw[1]:
                 a = list(E_args(b))
